@@ -33,6 +33,7 @@ type Obligation struct {
 	ExpectSat bool // covers and canaries
 	Results     []Val
 	ResultTerms []string
+	Splits      []string // branch conditions on the way to this obligation (case-split fallback)
 }
 
 type arrInfo struct {
@@ -147,6 +148,49 @@ type Exec struct {
 	curBlock *ssa.BasicBlock
 	prov     map[string]string // reference term -> "fresh" | "owned"
 	havockedAll bool
+	conds     []string
+	specCache map[string]Val
+	lastSpecKey, lastSpecName string
+	siteVars  map[string]Val
+	opaqueSig map[string]string
+	specCache2 map[string][]specEntry
+	readTrace []*readRec
+	ldCache   map[string]string
+}
+
+type specEntry struct {
+	reads *readRec
+	val   Val
+}
+
+// readRec records what a specification-function body read from the heap:
+// which array versions (to validate memoised expansions) and which cells
+// (the arguments of an opaque function's uninterpreted stand-in).
+type readRec struct {
+	arrs  map[string]string
+	cells []string // select terms, in evaluation order
+	sorts []string
+	seen  map[string]bool
+}
+
+func newReadRec() *readRec { return &readRec{arrs: map[string]string{}, seen: map[string]bool{}} }
+
+func (r *readRec) addCell(term, sort string) {
+	if r.seen[term] {
+		return
+	}
+	r.seen[term] = true
+	r.cells = append(r.cells, term)
+	r.sorts = append(r.sorts, sort)
+}
+
+func (r *readRec) absorb(o *readRec) {
+	for a, t := range o.arrs {
+		r.arrs[a] = t
+	}
+	for i, c := range o.cells {
+		r.addCell(c, o.sorts[i])
+	}
 }
 
 // benign: a store at this reference cannot change the wire image of any
@@ -209,6 +253,15 @@ func posOf(p *Prog, pos token.Pos) string {
 // heap
 
 func (e *Exec) arrTerm(st *State, name, sort string) string {
+	if len(e.readTrace) > 0 {
+		t, ok := st.heap[name]
+		if !ok {
+			t = name
+		}
+		for _, tr := range e.readTrace {
+			tr.arrs[name] = t
+		}
+	}
 	if t, ok := st.heap[name]; ok {
 		return t
 	}
@@ -221,16 +274,20 @@ func (e *Exec) arrTerm(st *State, name, sort string) string {
 }
 
 func (e *Exec) sel(st *State, name, sort, idx string) string {
-	return sx("select", e.arrTerm(st, name, sort), idx)
+	t := sx("select", e.arrTerm(st, name, sort), idx)
+	for _, tr := range e.readTrace {
+		tr.addCell(t, sort)
+	}
+	return t
 }
 
 func (e *Exec) upd(st *State, name, sort, idx, v string) {
-	if !isScratchArr(name) && !e.benign(idx) {
+	if e.P.wireRelevant(name) && !e.benign(idx) {
 		e.bumpHV(st)
 	}
 	cur := e.arrTerm(st, name, sort)
 	n := e.S.Fresh(name, "(Array Int "+sort+")")
-	e.S.Assert(sEq(n, sx("store", cur, idx, v)))
+	e.S.AssertDef(n, sx("store", cur, idx, v))
 	st.heap[name] = n
 }
 
@@ -240,10 +297,13 @@ func (e *Exec) havocArr(st *State, name string) {
 		return
 	}
 	st.heap[name] = e.S.Fresh(name, "(Array Int "+sort+")")
-	if strings.HasPrefix(name, "SEQ_") {
-		e.S.Assert(sEq(sx("seq.len", sx("select", st.heap[name], "0")), "0"))
+	if name == "LEN" {
+		e.S.Assert(sEq(sx("select", st.heap[name], "0"), "0"))
 	}
-	if !isScratchArr(name) {
+	if strings.HasPrefix(name, "SEQ_") {
+		e.S.Assert(sEq(sx("select", st.heap[name], "0"), constArr(name[4:])))
+	}
+	if e.P.wireRelevant(name) {
 		e.bumpHV(st)
 	}
 }
@@ -251,8 +311,11 @@ func (e *Exec) havocArr(st *State, name string) {
 func (e *Exec) havocAll(st *State) {
 	for _, a := range e.allArr {
 		st.heap[a.name] = e.S.Fresh(a.name, "(Array Int "+a.sort+")")
+		if a.name == "LEN" {
+			e.S.Assert(sEq(sx("select", st.heap[a.name], "0"), "0"))
+		}
 		if strings.HasPrefix(a.name, "SEQ_") {
-			e.S.Assert(sEq(sx("seq.len", sx("select", st.heap[a.name], "0")), "0"))
+			e.S.Assert(sEq(sx("select", st.heap[a.name], "0"), constArr(a.name[4:])))
 		}
 	}
 	for g, v := range st.ghost {
@@ -301,7 +364,12 @@ func (e *Exec) readAt(st *State, name string, ft types.Type, idx string) Val {
 		e.S.Assert(sImp(n, sEq(sx("str.len", s), "0")))
 		return vBytes(s, n).withT(ft)
 	case KRef:
-		t := e.S.Define("ld", "Int", e.sel(st, name, "Int", idx))
+		selT := e.sel(st, name, "Int", idx)
+		if c, ok := e.ldCache[selT]; ok {
+			return vRef(c).withT(ft)
+		}
+		t := e.S.Define("ld", "Int", selT)
+		e.ldCache[selT] = t
 		e.S.Assert(sx("<=", t, st.top))
 		e.ptrTypeFact(t, ft)
 		if t != "0" {
@@ -358,15 +426,35 @@ func (e *Exec) readField(st *State, T types.Type, path string, ft types.Type, ob
 
 func (e *Exec) cellName(ft types.Type) string { return "CELL" }
 
+// Slices of non-byte elements are references to a backing store: the elements
+// live in SEQ_<sort>[ref] (an array indexed by position) and the length in LEN[ref].
 func (e *Exec) seqArr(elemT types.Type) (string, string) {
 	s := elemSort(elemT)
-	return "SEQ_" + s, "(Seq " + s + ")"
+	return "SEQ_" + s, "(Array Int " + s + ")"
 }
 
-// seqOf returns the sequence term stored for a slice/array reference.
+// seqOf returns the element array stored for a slice/array reference.
 func (e *Exec) seqOf(st *State, ref string, elemT types.Type) string {
 	n, srt := e.seqArr(elemT)
 	return e.sel(st, n, srt, ref)
+}
+
+func (e *Exec) seqLen(st *State, ref string) string {
+	t := e.sel(st, "LEN", "Int", ref)
+	e.S.Assert(sx("<=", "0", t))
+	return t
+}
+
+// setSeq gives reference ref the given contents and length.
+func (e *Exec) setSeq(st *State, ref string, elemT types.Type, content, ln string) {
+	n, srt := e.seqArr(elemT)
+	e.upd(st, n, srt, ref, content)
+	e.upd(st, "LEN", "Int", ref, ln)
+}
+
+func constArr(sort string) string {
+	z := map[string]string{"Int": "0", "Bool": "false", "String": `""`}[sort]
+	return "((as const (Array Int " + sort + ")) " + z + ")"
 }
 
 func (e *Exec) elemFromTerm(t string, elemT types.Type, st *State) Val {
@@ -398,17 +486,11 @@ func elemTerm(v Val) string {
 }
 
 func seqLit(sort string, elems []string) string {
-	if len(elems) == 0 {
-		return "(as seq.empty (Seq " + sort + "))"
+	t := constArr(sort)
+	for i, x := range elems {
+		t = sx("store", t, sInt(int64(i)), x)
 	}
-	var us []string
-	for _, x := range elems {
-		us = append(us, sx("seq.unit", x))
-	}
-	if len(us) == 1 {
-		return us[0]
-	}
-	return sx("seq.++", us...)
+	return t
 }
 
 // ---------------------------------------------------------------------------
@@ -650,7 +732,8 @@ func (e *Exec) oblige(st *State, name, kind string, props []string, goal, desc s
 		// trivially discharged obligations are still counted (syntactic discharge)
 	}
 	o := &Obligation{Name: full, Props: props, Kind: kind, Func: e.name, Desc: desc, Pos: posOf(e.P, pos),
-		N: e.S.Len(), Hyp: []string{st.reach}, Goal: goal, Script: e.S, Inputs: append([]string{}, e.inputs...), Ex: e}
+		N: e.S.Len(), Hyp: []string{st.reach}, Goal: goal, Script: e.S, Inputs: append([]string{}, e.inputs...), Ex: e,
+		Splits: append([]string{}, e.conds...)}
 	e.obls = append(e.obls, o)
 	e.S.Assert(sImp(st.reach, goal))
 	return o
